@@ -987,7 +987,7 @@ def gen_malformed(rng):
 
 
 def cases(rng, tier):
-    n = 340 if tier == "quick" else 5000
+    n = 320 if tier == "quick" else 5000
     for k in range(n):
         r = rng.random()
         if r < 0.34:
